@@ -385,6 +385,14 @@ class BodyPartReader:
 
         size: chunk size
         """
+        while True:
+            chunk = await self._read_chunk(size)
+            # An empty chunk reads as the end of the part, so while all there
+            # is so far is a carried partial base64 quartet, read on.
+            if chunk or self._at_eof or not self._b64_carry:
+                return chunk
+
+    async def _read_chunk(self, size: int) -> bytes:
         if self._at_eof:
             return b""
         carry = self._b64_carry
@@ -432,6 +440,11 @@ class BodyPartReader:
             if chunk[cut] in _BASE64_CHARS:
                 left -= 1
         if not cut:
+            if len(chunk) < size:
+                # The stream handed over less than was asked for: carry it
+                # all and let read_chunk() read on.
+                self._b64_carry = chunk + self._b64_carry
+                return b""
             # No whole quartet to hand back, and carrying the lot would make
             # no progress: the caller asked for this many bytes, and a part
             # that holds no quartet within them holds none to give.
